@@ -6,13 +6,15 @@ From RV Require Import Base.Util Base.IntStr Model.BatchArith.
 
 Record rs := { r_spec : Z; r_avail : Z }.
 Record dstate := { d_n : Z; d_partition : ios; d_surge : option ios; d_unavail : option ios; d_new : rs; d_olds : list rs;
-                   d_new_oldest : bool (* the new ReplicaSet was created before every old one (a rollback to an earlier revision) *) }.
+                   d_new_oldest : bool (* the new ReplicaSet was created before every old one (a rollback to an earlier revision) *);
+                   d_no_ru : bool (* the strategy annotation has no rollingUpdate section: no surge, nothing may be unavailable *) }.
 
 Definition sumspec (l : list rs) : Z := fold_right (fun r a => r_spec r + a) 0 l.
 Definition sumavail (l : list rs) : Z := fold_right (fun r a => r_avail r + a) 0 l.
 
 (* ResolveFenceposts / MaxSurge / MaxUnavailable *)
 Definition fenceposts (d : dstate) : Z * Z :=
+  if d_no_ru d then (0, 0) else
   let s := scaled true (match d_surge d with Some v => v | None => IInt 0 end) (d_n d) in
   let u := scaled false (match d_unavail d with Some v => v | None => IInt 0 end) (d_n d) in
   if (s =? 0) && (u =? 0) then (s, 1) else (s, u).
@@ -33,10 +35,10 @@ Definition new_rs_new_replicas (d : dstate) : Z :=
 
 Definition set_new (d : dstate) (x : Z) : dstate :=
   {| d_n := d_n d; d_partition := d_partition d; d_surge := d_surge d; d_unavail := d_unavail d;
-     d_new := {| r_spec := x; r_avail := r_avail (d_new d) |}; d_olds := d_olds d; d_new_oldest := d_new_oldest d |}.
+     d_new := {| r_spec := x; r_avail := r_avail (d_new d) |}; d_olds := d_olds d; d_new_oldest := d_new_oldest d; d_no_ru := d_no_ru d |}.
 Definition set_olds (d : dstate) (l : list rs) : dstate :=
   {| d_n := d_n d; d_partition := d_partition d; d_surge := d_surge d; d_unavail := d_unavail d; d_new := d_new d; d_olds := l;
-     d_new_oldest := d_new_oldest d |}.
+     d_new_oldest := d_new_oldest d; d_no_ru := d_no_ru d |}.
 
 (* reconcileNewReplicaSet: (scaled, state) *)
 Definition reconcile_new (d : dstate) : bool * dstate :=
@@ -148,6 +150,16 @@ Definition p_total_within_surge (d d' : dstate) : bool :=
 (* available pods are never scaled down below replicas - maxUnavailable *)
 Definition p_availability_budget (d d' : dstate) : bool :=
   Z.min (d_n d - max_unavail d) (total_kept d) <=? total_kept d'.
+
+(* "when the partition covers all replicas the Deployment converges": with every existing pod available, a sync of a
+   Deployment that is not yet on the new revision only changes the size of some ReplicaSet -- it is never stuck *)
+Definition all_available (d : dstate) : bool :=
+  (r_avail (d_new d) =? r_spec (d_new d)) && forallb (fun r => r_avail r =? r_spec r) (d_olds d).
+Definition converged (d : dstate) : bool := (r_spec (d_new d) =? d_n d) && (sumspec (d_olds d) =? 0).
+Definition same_sizes (d d' : dstate) : bool :=
+  (r_spec (d_new d) =? r_spec (d_new d')) && list_eqb Z.eqb (map r_spec (d_olds d)) (map r_spec (d_olds d')).
+Definition p_progress_at_full_partition (d d' : dstate) : bool :=
+  if (d_n d <=? limit d) && all_available d && negb (converged d) && negb (d_no_ru d) then negb (same_sizes d d') else true.
 
 Definition wf_state (d : dstate) : bool :=
   (0 <=? d_n d) && (0 <=? r_avail (d_new d)) && (r_avail (d_new d) <=? r_spec (d_new d)) &&
